@@ -183,7 +183,8 @@ class ShardRunner:
             total_budget = sum(int(c.get("timeout", self.timeout)) for c in remaining) * timeout_mult + 60
             with open(lf, "w") as logf:
                 try:
-                    p = subprocess.run([self.exe, cf, of], stdout=logf, stderr=subprocess.STDOUT, env=env,
+                    cmd = (list(self.exe) if isinstance(self.exe, (list, tuple)) else [self.exe]) + [cf, of]
+                    p = subprocess.run(cmd, stdout=logf, stderr=subprocess.STDOUT, env=env,
                                        timeout=total_budget)
                     rc = p.returncode
                 except subprocess.TimeoutExpired:
@@ -262,7 +263,7 @@ class ShardRunner:
         perctx = {}
         chosen = []
         for cid in tos:
-            ctx = bycid[cid].get("method") or bycid[cid].get("ctx") or "-"
+            ctx = bycid[cid].get("ctx") or bycid[cid].get("method") or "-"
             if perctx.get(ctx, 0) < 3:
                 perctx[ctx] = perctx.get(ctx, 0) + 1
                 chosen.append(cid)
